@@ -14,7 +14,7 @@ import posixpath
 import re
 import signal
 
-from vlib import driver
+from vlib import driver, fuzz
 from vlib.gen import c07_docs as gen
 from vlib.ref import c07_document as ref
 from vlib.runner import Sub, Verdict, fail
@@ -687,11 +687,19 @@ def check_manual(case) -> Verdict:
     return Verdict(True, nontrivial=True, key='manual:instructions', labels=['manual:instructions'])
 
 
+decode_doc = gen.decode_doc  # (bytes -> case) of the coverage-guided campaign
+
+
 SUBS = [
     Sub('manual_agrees', check_manual, enumerate=lambda tier: [{'what': 'instructions'}], exhaustive=True,
         shards={'quick': 1, 'thorough': 1}),
     Sub('api_small_exhaustive', check_api, enumerate=gen.enumerate_small, exhaustive=True),
     Sub('api_documents', check_api, strategy=gen.api_strategy, budget={'quick': 30000, 'thorough': 800000}),
+    fuzz.fuzz_sub('api_fuzz', 'props.c07_document', 'check_api', 'decode_doc', 'api_documents',
+                  runs={'quick': 30000, 'thorough': 1200000}, shards={'quick': 4, 'thorough': 16}, max_len=48,
+                  instrument=('exactly_lib.section_document', 'exactly_lib.processing.parse'),
+                  seeds=[b'\x00\x00\x0f\x42\x4a\x03\x11\x18', b'\x02\x01\x1f\x43\x4a\x00\x0f\x44\x4a\x02\x3b',
+                         b'\x04\x00\x32\x33\x0f\x34\x0f\x01\x3d\x00']),
     Sub('cli_locations', check_cli_location, strategy=gen.cli_location_strategy,
         budget={'quick': 2400, 'thorough': 50000}),
     Sub('cli_permutation', check_cli_permutation, strategy=gen.cli_permutation_strategy,
